@@ -14,17 +14,17 @@ import (
 
 // C14 — all transports answer alike (sibling cross-check).
 //
-//   R-method-set        each of the 8 methods every transport serves is a key of the shared dispatch
-//                       table and a case of the stdio server's own switch
-//   R-same-callee       for each method both routes end (through thin forwarders) in the same function
-//   R-ping              all ping routes produce a value whose JSON encoding is {}
-//   R-wrapper-shape     every function that wraps a handler result into a JSONRPCResponse first tests the
-//                       result for *JSONRPCError and passes it through; the wrap is on the failed-test edge
-//   R-error-passthrough returned error objects are *JSONRPCError (shared with C03)
-//   R-client-decoders   Client and StdioClient decode each operation's answer with the same function,
-//                       after the same error-response test
-//   R-result-presence   clients decide on the presence of "result", not on its value being non-nil
-//   R-cap-guards / R-cap-wired  (shared with C16) capabilities are computed alike for every server
+//	R-method-set        each of the 8 methods every transport serves is a key of the shared dispatch
+//	                    table and a case of the stdio server's own switch
+//	R-same-callee       for each method both routes end (through thin forwarders) in the same function
+//	R-ping              all ping routes produce a value whose JSON encoding is {}
+//	R-wrapper-shape     every function that wraps a handler result into a JSONRPCResponse first tests the
+//	                    result for *JSONRPCError and passes it through; the wrap is on the failed-test edge
+//	R-error-passthrough returned error objects are *JSONRPCError (shared with C03)
+//	R-client-decoders   Client and StdioClient decode each operation's answer with the same function,
+//	                    after the same error-response test
+//	R-result-presence   clients decide on the presence of "result", not on its value being non-nil
+//	R-cap-guards / R-cap-wired  (shared with C16) capabilities are computed alike for every server
 func init() { Registry["C14"] = checkC14 }
 
 var commonMethods = []string{"initialize", "ping", "tools/list", "tools/call", "prompts/list", "prompts/get", "resources/list", "resources/read"}
